@@ -238,4 +238,13 @@ theorem nodup_sub (a b : Current K) (ha : (keys a).Nodup) (hb : (keys b).Nodup) 
 
 end ring
 end Current
+
+/-- all `Current` literals of an expression have distinct keys -/
+def LitsNodup {K : Type} : Expr K → Prop
+  | .lit c => c.keys.Nodup
+  | .add l r => LitsNodup l ∧ LitsNodup r
+  | .sub l r => LitsNodup l ∧ LitsNodup r
+  | .lmul _ e => LitsNodup e
+  | .rmul e _ => LitsNodup e
+
 end Acn.Network
